@@ -1,1 +1,94 @@
-From VP Require Import Base.Tactics Store.Model Store.Run Store.Props.
+(* Pins the C21 statements and prints what they depend on. Compiled on every run. *)
+From Coq Require Import Sorting.Sorted.
+From VP Require Import Base.Tactics Store.Model Store.Run Store.ProofsFs Store.ProofsMgr Store.ProofsC21 Store.Props.
+Open Scope N_scope.
+
+Check (C21_recover_newest_complete :
+  forall encode decode, (forall c, decode (encode c) = Some c) ->
+  forall max evs, (1 <= max)%nat -> Forall (fun e => match e with ECorrupt _ => False | _ => True end) evs ->
+    recover decode (sfs (run encode max evs)) = Ok (hd_error (sdone (run encode max evs)))).
+Check (C21_acknowledged_recovered :
+  forall encode decode, (forall c, decode (encode c) = Some c) ->
+  forall max evs d n, (1 <= max)%nat -> Forall (fun e => match e with ECorrupt _ => False | _ => True end) evs ->
+    smgr (run encode max evs) = Some n ->
+    recover decode (sfs (run encode max (evs ++ [ESave d]))) = Ok (Some (mkCk n d))).
+Check (C21_never_partial :
+  forall encode decode, (forall c, decode (encode c) = Some c) ->
+  forall max evs, (1 <= max)%nat ->
+    Forall (fun e => match e with ECorrupt b => decode b = None | _ => True end) evs ->
+    let s := run encode max evs in
+    exists r, recover decode (sfs s) = Ok r /\
+      (forall c, r = Some c ->
+         In c (sdone s) /\ fs_get (sfs s) (FCk (cid c)) = Some (encode c) /\
+         (forall id b, cid c < id -> fs_get (sfs s) (FCk id) = Some b -> decode b = None)) /\
+      (r = None -> forall id b, fs_get (sfs s) (FCk id) = Some b -> decode b = None)).
+Check (C21_older_recovered_when_newest_unreadable :
+  forall encode decode, (forall c, decode (encode c) = Some c) ->
+  forall max evs b c1 c2 D, (1 <= max)%nat ->
+    Forall (fun e => match e with ECorrupt _ => False | _ => True end) evs ->
+    decode b = None ->
+    sdone (run encode max evs) = c1 :: c2 :: D ->
+    fs_get (sfs (run encode max evs)) (FCk (cid c2)) <> None ->
+    recover decode (sfs (run encode max (evs ++ [ECorrupt b]))) = Ok (Some c2)).
+Check (C21_bound_after_completed :
+  forall encode max evs d, smgr (run encode max evs) <> None ->
+    (length (list_ckpts (sfs (run encode max (evs ++ [ESave d])))) <= max)%nat).
+Check (C21_bound_all_states :
+  forall encode max evs,
+    (length (list_ckpts (sfs (run encode max evs))) <= max + spend (run encode max evs))%nat).
+Check (C21_ids_increase :
+  forall encode decode, (forall c, decode (encode c) = Some c) ->
+  forall max evs, (1 <= max)%nat ->
+    Forall (fun e => match e with ECorrupt b => decode b = None | _ => True end) evs ->
+    StronglySorted (fun a b => cid b < cid a) (sdone (run encode max evs))).
+Check (C21_readable_files_complete :
+  forall encode decode, (forall c, decode (encode c) = Some c) ->
+  (forall c k, (k < length (encode c))%nat -> decode (firstn k (encode c)) = None) ->
+  forall max evs p b c,
+    Forall (fun e => match e with ECorrupt b => decode b = None | _ => True end) evs ->
+    fs_get (sfs (run encode max evs)) p = Some b -> decode b = Some c -> b = encode c).
+Check (C21_eval_codec_contract :
+  (forall c, toy_decode (toy_encode c) = Some c) /\
+  (forall c k, (k < length (toy_encode c))%nat -> toy_decode (firstn k (toy_encode c)) = None)).
+(* the history semantics (including the ghost list of completely written checkpoints) the theorems refer to *)
+Check (eq_refl : step = fun encode max s e =>
+    match e with
+    | ENew => mkSt (sfs s) (Some (mgr_new (sfs s))) (sdone s) (spend s)
+    | ESave d =>
+        match smgr s with
+        | None => s
+        | Some n =>
+            mkSt (apply_ops (sfs s) (checkpoint_ops encode (sfs s) n d max)) (Some (n + 1))
+                 (mkCk n d :: sdone s) 0
+        end
+    | ECrash d k torn =>
+        match smgr s with
+        | None => s
+        | Some n =>
+            let ops := checkpoint_ops encode (sfs s) n d max in
+            if Nat.leb (length ops) k
+            then mkSt (apply_ops (sfs s) ops) (Some (n + 1)) (mkCk n d :: sdone s) 0
+            else mkSt (exec_crash (sfs s) ops k torn) None
+                      (if Nat.leb 2 k then mkCk n d :: sdone s else sdone s) (S (spend s))
+        end
+    | ECorrupt b =>
+        match rev (list_ckpts (sfs s)) with
+        | [] => s
+        | id :: _ => mkSt (fs_write (sfs s) (FCk id) b) (smgr s) (sdone s) (spend s)
+        end
+    end).
+Check (eq_refl : checkpoint_ops = fun encode f n d max =>
+    let ops1 := [Write (FTmp n) (encode (mkCk n d)); Rename (FTmp n) (FCk n)] in
+    ops1 ++ map (fun id => Remove (FCk id))
+               (firstn (length (list_ckpts (apply_ops f ops1)) - max) (list_ckpts (apply_ops f ops1)))).
+Check (eq_refl : run = fun encode max evs => fold_left (step encode max) evs (mkSt [] None [] 0)).
+
+Print Assumptions C21_recover_newest_complete.
+Print Assumptions C21_acknowledged_recovered.
+Print Assumptions C21_never_partial.
+Print Assumptions C21_older_recovered_when_newest_unreadable.
+Print Assumptions C21_bound_after_completed.
+Print Assumptions C21_bound_all_states.
+Print Assumptions C21_ids_increase.
+Print Assumptions C21_readable_files_complete.
+Print Assumptions C21_eval_codec_contract.
